@@ -5,4 +5,5 @@ Extraction "model.ml"
   f32_of_bits f32_bits mkConfig mkSconfig init_sys
   sys_storage sys_storage_v0 sys_status json_status scrape scrape_v0
   delete_topic_metrics delete_topic_metrics_v0 delete_consumer_metrics
-  expected broker_offset topic_no_gap group_expired.
+  expected broker_offset topic_no_gap group_expired
+  init_csys cscrape cscrape_v1 cstatus cjson_status mkCsys.
